@@ -108,6 +108,16 @@ impl ByteArena {
         anchor::NUM_LIVE_BYTES.load(Ordering::Relaxed)
     }
 
+    /// Verification hook: `(start, end, bump)` addresses of the current allocation cache.
+    #[cfg(woodpile_verif)]
+    #[must_use]
+    pub fn verif_cache(&self) -> Option<(usize, usize, usize)> {
+        self.cache.as_ref().map(|cache| {
+            let range = cache.range();
+            (range.start, range.end, cache.next_alloc_address())
+        })
+    }
+
     /// Flushes the arena's internal allocation cache.
     #[inline(never)] // The destructor can turn into a lot of code.
     pub fn flush_cache(&mut self) {
